@@ -31,8 +31,9 @@ fn gen_map(r: &mut Rng, index: u64) -> Attributes {
     if let Some(bc) = BrickColor::from_number((index % 1100) as u16) {
         a.insert("brick".into(), Variant::BrickColor(bc));
     }
-    if index % 97 == 0 {
-        let n = *r.pick(&[0usize, 1, 100, 1000]);
+    if index % 23 == 0 {
+        // lengths around powers of two and well past any plausible pre-allocation clamp
+        let n = *r.pick(&[0usize, 1, 2, 100, 255, 256, 1000, 1023, 1024, 1025, 1100, 2048, 3000, 4097]);
         a.insert(
             "longseq".into(),
             Variant::NumberSequence(NumberSequence { keypoints: (0..n).map(|_| NumberSequenceKeypoint::new(g.f32(r), g.f32(r), g.f32(r))).collect() }),
@@ -41,6 +42,9 @@ fn gen_map(r: &mut Rng, index: u64) -> Attributes {
             "longcolors".into(),
             Variant::ColorSequence(ColorSequence { keypoints: (0..n).map(|_| ColorSequenceKeypoint::new(g.f32(r), g.color3(r))).collect() }),
         );
+    }
+    if index % 2 == 0 {
+        a.insert("zz-after-long".into(), Variant::Int32(index as i32));
     }
     if index % 13 == 0 {
         a.insert("fontempty".into(), Variant::Font(Font { family: String::new(), weight: FontWeight::Thin, style: FontStyle::Italic, cached_face_id: None }));
